@@ -109,6 +109,17 @@ func VX_C18_plain() {
 	}
 	vxNotSpecial(pr)
 	body := vxEncode(pr)
+	lit := ""
+	if vx.HasParam("lit") {
+		// a literal percent sign next to the wildcard: only ONE % at each end is the wildcard
+		lit = vx.ParamStr("lit")
+	}
+	if lit == "pre" {
+		body = "%" + body
+	}
+	if lit == "post" {
+		body = body + "%"
+	}
 	pattern := body
 	if pre {
 		pattern = "%" + pattern
@@ -133,6 +144,12 @@ func VX_C18_plain() {
 	want := body
 	if !cs {
 		want = vxUpper(pr)
+		if lit == "pre" {
+			want = "%" + want
+		}
+		if lit == "post" {
+			want = want + "%"
+		}
 		if vx.HasParam("only") {
 			want = ""
 		}
